@@ -582,6 +582,13 @@ def compute_mro(cls:'Class') -> Sequence[Union['Class', str]]:
                 else:
                     # Only re-resolve the base object if the base was None.
                     resolved_base = o.parent.resolveName(str_base)
+                    if not isinstance(resolved_base, Class):
+                        # The class might have been moved (re-exported) since: the name 
+                        # as expanded in its original scope still designates the base.
+                        try:
+                            resolved_base = o.system.find_object(o._initialbases[i])
+                        except LookupError:
+                            resolved_base = None
                     if isinstance(resolved_base, Class):
                         base = resolved_base
                         finalbaseobjects.append(base)
